@@ -24,6 +24,7 @@ from glom import (T, S, A, GlomError, PathAccessError, CoalesceError, Unregister
                   PathDeleteError, FoldError, MatchError, TypeMatchError, CheckError, Coalesce, Match, Check, Fold, Sum,
                   Flatten, Merge, Assign, Delete, Spec, M, Switch, Or, And, Not, Val, Iter, Path, Auto, glom as G)
 from glom.grouping import Group, Limit  # noqa: E402
+from glom import Glommer  # noqa: E402
 
 META = {
     'level': 'fault_enumeration',
@@ -317,7 +318,10 @@ def fault_cases(col, rng, n_exc):
                     want = ('user', raised)
                 for ff in gen.fns:
                     ff.calls = 0
-                got = call_base(G, target, spec, **kw)
+                entry_name, entry = ENTRY_POINTS[(si + len(cell[1]) + len(ename)) % len(ENTRY_POINTS)]
+                got = call_base(entry, target, spec, **kw)
+                if entry_name != 'glom':
+                    posclass = posclass.split(' via ')[0] + ' via ' + entry_name
                 col.case((ename, node[0], si == 0, cell), not top_level)
                 col.count('faults_injected')
                 if want[0] == 'user':
@@ -640,6 +644,10 @@ class _SlotLeaf:
     __slots__ = ()
 
 
+_GLOMMER = Glommer()
+ENTRY_POINTS = [('glom', G), ('Glommer().glom', _GLOMMER.glom), ('Spec(..).glom', lambda target, spec, **kw: Spec(spec).glom(target, **kw))]
+
+
 def glom_detected(col):
     """every documented failure kind, provoked directly, under the whole matrix"""
     table = [
@@ -653,6 +661,13 @@ def glom_detected(col):
         ('match dict key', {'x': 1}, Match({'y': int}), MatchError), ('M compare', 1, M > 5, MatchError), ('Not', 1, Not(M), MatchError),
         ('switch no match', 3, Match(Switch({1: 'a'})), MatchError), ('Or all fail', 3, Match(Or(1, 2)), MatchError),
         ('check type', 'a', Check(type=int), CheckError), ('check validate', 0, Check(validate=lambda x: x > 0), CheckError),
+        # the value that is checked may be anything - unhashable, with an __eq__ of its own: a value that is not among the allowed
+        # ones fails the Check
+        ('check one_of, list value', [1, 2], Check(one_of=(1, 2, 'a')), CheckError), ('check one_of, dict value', {'k': 1}, Check(one_of=['a', 'b']), CheckError),
+        ('check one_of, set value', {1}, Check(one_of=(1, 2)), CheckError), ('check one_of, value with __eq__', _EqualToNone(), Check(one_of=(1, 2)), CheckError),
+        ('check one_of below a path', {'v': [1]}, Check('v', one_of=('x', 'y')), CheckError), ('check one_of, unhashable allowed values', 3, Check(one_of=([1], [2])), CheckError),
+        ('check equal_to, list value', [1], Check(equal_to=1), CheckError), ('check equal_to unhashable', 1, Check(equal_to=[1]), CheckError),
+        ('check one_of per item', [[1], 'zz'], [Check(one_of=('a', 'b'))], CheckError), ('check instance_of, list value', [1], Check(instance_of=(int, str)), CheckError),
         ('assign to tuple', (1,), Assign('0', 5), GlomError),   # (UnregisteredTarget today, PathAssignError per the Assign docstring) ('assign bad index', [1], Assign('5', 0), PathAssignError),
         ('assign missing parent', {}, Assign('a.b', 1), PathAccessError),
         ('delete missing', {}, Delete('a'), PathDeleteError), ('delete missing index', [1], Delete('5'), PathDeleteError),
@@ -698,10 +713,13 @@ def glom_detected(col):
                 kw['skip_exc'] = {'type': cls, 'base': cls.__mro__[1] if cls.__mro__[1] is not object else cls,
                                   'tuple': (ZeroDivisionError, cls)}[cell[1]]
             import copy
-            got = call_base(G, copy.deepcopy(target), spec, **kw)
-            col.case(('detected', name, cell), True)
-            col.count('glom_detected_runs')
-            judge_escape(col, None, got, kw, cell, 'glom(%s, %s)' % (short(target), short(spec)), 'glom-detected: ' + name, True, cls)
+            # default= and skip_exc= mean the same through every entry point that takes them
+            for ename, entry in ENTRY_POINTS:
+                got = call_base(entry, copy.deepcopy(target), spec, **kw)
+                col.case(('detected', name, cell, ename), True)
+                col.count('glom_detected_runs')
+                judge_escape(col, None, got, kw, cell, '%s(%s, %s)' % (ename, short(target), short(spec)), 'glom-detected: ' + name +
+                             ('' if ename == 'glom' else ' via ' + ename), True, cls)
             if not got.ok and not isinstance(got.exc, GlomError) and not kw.get('glom_debug'):
                 col.violation('C04/glom-failure-not-a-GlomError:' + name, '%s raised %r' % (name, got.exc), None)
 
